@@ -28,6 +28,8 @@ type c17Result struct {
 	Request      string              `json:"request,omitempty"`
 	Response     string              `json:"response,omitempty"`
 	Requests     int                 `json:"requests"`
+	Hang         string              `json:"hang,omitempty"`   // deadlock | unclassified: the case never returned
+	Replay       *c17Case            `json:"replay,omitempty"` // the case that reproduces a hang finding, when it is not the case itself
 }
 
 func (r *c17Result) find(key, what string) {
@@ -64,10 +66,30 @@ func stringSetEq(a, b []string) bool {
 }
 
 func (e *c17Env) send(c c17Case, m *c17Mat) *GQLResponse {
+	e.g.Inflight(fmt.Sprintf("[%s] %s variables=%s", who(c.Auth), m.Doc, truncateStr(mon.JSON(m.Vars), 300)))
+	defer e.g.Inflight("")
 	if c.Method == "GET" {
 		return e.h.Get(c.Auth, m.getURL())
 	}
 	return e.h.Post(c.Auth, m.Doc, m.Vars)
+}
+
+// post sends a query document under the watchdog's journal.
+func (e *c17Env) post(auth bool, doc string) *GQLResponse {
+	e.g.Inflight(fmt.Sprintf("[%s] %s", who(auth), doc))
+	defer e.g.Inflight("")
+	return e.h.Post(auth, doc, nil)
+}
+
+// noteServed keeps the list of requests served since (and including) the last accepted mutation: when a later
+// request never returns, one of them left the cache in that state.
+func (e *c17Env) noteServed(c c17Case, accepted bool) {
+	if accepted {
+		e.suspects = nil
+	}
+	if len(e.suspects) < 60 {
+		e.suspects = append(e.suspects, c)
+	}
 }
 
 func who(auth bool) string {
@@ -86,12 +108,15 @@ func (e *c17Env) runMutation(c c17Case, res *c17Result) {
 	}
 	before := e.snap
 	resp := e.send(c, m)
+	e.g.Stage("snapshot after %s", c17CaseSig(c))
 	after, err := e.snapshot()
 	if err != nil {
 		res.Inconclusive = "snapshot after the request failed: " + err.Error()
 		return
 	}
 	e.snap = after
+	e.noteServed(c, !(resp.HasErrors() || jget(resp.Data, c.Mutation) == nil))
+	e.g.Publish(res, e.suspects)
 	res.Class = m.Exp.Class
 	res.Nontrivial = true
 	res.Request = fmt.Sprintf("%s %s variables=%s", map[bool]string{true: "GET", false: "POST"}[c.Method == "GET"], m.Doc, truncateStr(mon.JSON(m.Vars), 600))
